@@ -64,3 +64,32 @@ Theorem C16_type_respelling : forall norm, (forall a b, norm a = norm b -> to_up
   forall ts ts', TypeRespell.tssim norm ts ts' -> rsimT norm (parse_type ts) (parse_type ts').
 Proof. exact parse_type_sim. Qed.
 Print Assumptions C16_type_respelling.
+
+(* ---- the statement family (Parse/StmtModel.v: twenty-four DDL statements with their recover points, tied to ParseDDL / ParseStatement and the
+   list entry points in every run): what the statement parser returns -- the node, the rest, the number of errors, the tokens of a Bad node --
+   depends on the tokens only through their kinds, the values of identifiers up to [norm], and the spelling of identifier-like words up to
+   letter case.  White space and comments only move positions, and the letter case of keywords and pseudo keywords is invisible: the same
+   statement is parsed, accepted or rejected alike, with the same shape ---- *)
+From Verif Require Import Parse.StmtModel Parse.StmtRespell.
+Theorem C16_ddl_statement_respelling : forall norm ts ts', sssim norm ts ts' -> psim norm (sp_ddl ts) (sp_ddl ts').
+Proof. exact sp_ddl_sim. Qed.
+Print Assumptions C16_ddl_statement_respelling.
+
+Theorem C16_statement_respelling : forall norm ts ts', sssim norm ts ts' -> psim norm (sp_stmt ts) (sp_stmt ts').
+Proof. exact sp_stmt_sim. Qed.
+Print Assumptions C16_statement_respelling.
+
+(* the decidable form of the hypothesis evaluated on real token lists in every run *)
+Theorem C16_statement_tokens_checker_sound : forall a b, same_stmt_tokensb a b = true -> sssim to_upper a b.
+Proof. exact same_stmt_tokensb_ok. Qed.
+Print Assumptions C16_statement_tokens_checker_sound.
+
+(* non-vacuity: "drop  table t" and "DROP TABLE /*c*/ t" (other positions, other letter case) are related, and both parse to a DropTable *)
+Example C16_statement_example :
+  let idz (s : string) (p : Z) := {| pk := bs K_ident; praw := bs s; pstr := bs s; ppos := p; pend := (p + Z.of_nat (String.length s))%Z; pbase := 0 |} in
+  let e (p : Z) := {| pk := bs K_eof; praw := []; pstr := []; ppos := p; pend := p; pbase := 0 |} in
+  let a := [idz "drop"%string 0; idz "table"%string 6; idz "t"%string 12; e 13]%Z in
+  let b := [idz "DROP"%string 0; idz "TABLE"%string 5; idz "t"%string 17; e 18]%Z in
+  same_stmt_tokensb a b = true /\
+  (exists fs r, sp_stmt a = Some (DNode "DropTable"%string fs, r, 0%nat)) /\ (exists fs r, sp_stmt b = Some (DNode "DropTable"%string fs, r, 0%nat)).
+Proof. vm_compute. split; [reflexivity|]. split; eexists; eexists; reflexivity. Qed.
